@@ -1502,7 +1502,12 @@ func (g *genCtx) genOne(c *Contract, mine []*Contract, skipLoops bool) {
 		for _, k := range ckeys {
 			for _, cl := range c.CallsiteRequires[k] {
 				// resolved in the function's outermost block: parameters, results, function-level locals
-				g.compileClause(c, cl, si, body.Rbrace-1, "loop", "bool")
+				var extras []string
+				if k == "copy" {
+					// the built-in copy: its two operands are visible as c_dst, c_src
+					extras = []string{"c_dst []byte", "c_src []byte"}
+				}
+				g.compileClauseX(c, cl, si, body.Rbrace-1, "loop", "bool", extras)
 			}
 		}
 		if skipLoops {
